@@ -93,7 +93,7 @@ struct SyncRun : NodeEnv {
 };
 
 Plan gen_sync(Rng &r, bool thorough) {
-    Plan p; uint32_t f = r.pick<uint32_t>({1000, 1000, 10000, 100, 2000, 100000}); p.cfg["freq"] = f; uint32_t minus = (f <= 10000 ? (10000 + f - 1) / f : 1) * 100;
+    Plan p; uint32_t f = r.pick<uint32_t>({1000, 1000, 10000, 100, 2000, 100000, 3000, 1500, 300, 7000}); p.cfg["freq"] = f; uint32_t minus = (f <= 10000 ? (10000 + f - 1) / f : 1) * 100;
     auto cyc = [&]() -> int64_t { int c = (int)r.below(10); if (c == 0) return 0; if (c == 1) return (int64_t)r.range(1, (int64_t)minus - 1 > 0 ? (int64_t)minus - 1 : 1); if (c == 2) return minus; if (c == 3) return (int64_t)minus * r.range(1, 50) + (r.chance(1, 3) ? 50 : 0); if (c == 4) return r.pick<int64_t>({7000000, 10000000, 6553600, 6553500}); return (int64_t)minus * r.pick<int64_t>({1, 2, 3, 5, 10, 20, 100}); };
     p.cfg["cobid"] = (r.chance(1, 2) ? 0x40000000ll : 0) | r.pick<int64_t>({0x80, 0x80, 0x90, 0x100}); p.cfg["cycle"] = cyc(); p.cfg["ttype"] = r.range(1, 3);
     int n = (int)r.range(3, thorough ? 50 : 25);
